@@ -212,7 +212,12 @@ def run_sim_property(pid, tier, seed, embedded=False):
             hash_files.append(hs)
         if not d.get('ok', True) and 'failure' in d:
             f = d['failure']
-            if f.get('deterministic', 0) < 3:
+            if f.get('deterministic', 0) < 3 and f.get('failing', 0) == 3:
+                # fails on every replay with an owned, unlisted verdict, but not always with the same symptom: the
+                # code under test reads uninitialised or recycled memory (stacks are not wiped between executions)
+                hists.setdefault('failures_with_varying_symptom', {})[f['sig']] = 1
+                f['msg'] += ' [fails in 3 of 3 replays; the symptom varies between replays]'
+            elif f.get('deterministic', 0) < 3:
                 # a replay that does not reproduce is a harness problem, not a violation (DESIGN 3.7)
                 hists.setdefault('nondeterministic_failures', {})[f['sig']] = 1
                 nondeterministic.append((sid, f['sig']))
@@ -283,7 +288,7 @@ def run_sim_property(pid, tier, seed, embedded=False):
         fuzz_stats.pop('_nt', None); fuzz_stats.pop('_sp', None)
         merged['evaluations'] += fuzz_stats['runs']
 
-    if nondeterministic:
+    if nondeterministic and not violations:
         print(f'check.py: shard(s) reported a failure that did not replay 3/3 ({nondeterministic[:3]}): harness nondeterminism, the check is broken (exit 2)')
         return 2
     if inconclusive > 0 or merged['evaluations'] == 0:
